@@ -329,7 +329,11 @@ func (b *defaultBinder) preBindBody(req *protocol.Request, v interface{}) error 
 	ct := bytesconv.B2s(req.Header.ContentType())
 	switch strings.ToLower(utils.FilterContentType(ct)) {
 	case consts.MIMEApplicationJSON:
-		body := req.Body()
+		body, err := req.BodyE()
+		if err != nil {
+			// (a streamed body that could not be read is not a request without a body)
+			return err
+		}
 		if len(body) == 0 {
 			// (the body of unknown length turned out to be empty)
 			return nil
@@ -340,7 +344,11 @@ func (b *defaultBinder) preBindBody(req *protocol.Request, v interface{}) error 
 		if !ok {
 			return fmt.Errorf("%s can not implement 'proto.Message'", v)
 		}
-		return proto.Unmarshal(req.Body(), msg)
+		body, err := req.BodyE()
+		if err != nil {
+			return err
+		}
+		return proto.Unmarshal(body, msg)
 	default:
 		return nil
 	}
